@@ -598,7 +598,17 @@ def callable_env(forest, mod, interp, extra_env=None):
             if nv is not v:
                 genv[k] = nv
     if extra_env:
-        genv.update(extra_env)
+        # a stand-in written against the reference signature is callable through a signature that has grown (refsig)
+        from . import refsig
+        for k, v in extra_env.items():
+            cur = genv.get(k)
+            owner = cur.genv.get('__modname__', mod) if isinstance(cur, FuncVal) and isinstance(getattr(cur, 'genv', None), dict) else mod
+            name = cur.node.name if isinstance(cur, FuncVal) and isinstance(cur.node, ast.FunctionDef) else k
+            genv[k] = refsig.tolerant(forest, owner, name, v) if isinstance(cur, FuncVal) else v
+            if type(v) is _evmod.Namespace and v._name in forest.trees:
+                # a stand-in for a whole module of the package: its function stand-ins likewise
+                for attr, fv in list(v._values.items()):
+                    v._values[attr] = refsig.tolerant(forest, v._name, attr, fv)
     return genv
 
 
